@@ -414,6 +414,12 @@ def gen_cases(tier, seed):
                 for fe in ('legacy', 'procpool'):
                     d2 = [s for s in dl if math.ceil(s / C) <= 300 and (fe != 'procpool' or s > 0)]
                     cases.append({'type': 'fe', 'fe': fe, 'T': T, 'C': C, 'sizes': d2 if not quick else d2[::3]})
+    # thresholds beyond 5 GiB (the largest single PutObject / CopyObject): the threshold alone decides, also between 5 GiB and it
+    for T in (5 * GB + 1, 6 * GB, 7 * GB + 5):
+        for C in (GB, 5 * GB):
+            szs = sorted({5 * GB - 1, 5 * GB, 5 * GB + 1, T - 1, T, T + 1})
+            for kind in ('upload', 'copy', 'download'):
+                cases.append({'type': 'mgr', 'kind': kind, 'T': T, 'C': C, 'sizes': szs})
     # uploads from non-seekable streams of unknown size: the configured chunk size can only be brought within [5 MiB, 5 GiB]
     for C in ([1, MB, 5 * MB - 1, 5 * MB, 8 * MB] if quick else [1, 4096, MB, 5 * MB - 1, 5 * MB, 5 * MB + 1, 8 * MB, 16 * MB]):
         for T in ([8 * MB] if quick else [MB, 8 * MB, 20 * MB]):
